@@ -28,11 +28,11 @@ pub enum AgentCase {
     /// noise agents: tick, sigma, n traders, steps, seed  (checks grid, volumes, trader ids, quoting side of the mid, no abort)
     Noise { tick: u32, sigma: f64, p_limit: f32, p_market: f32, p_cancel: f32, n: u16, steps: u32, seed: u64 },
     /// momentum agents with harness-controlled quotes: path of (bid, ask); saturated demand
-    Momentum { path: Vec<(u32, u32)>, n: u16, decay: f64, order_ratio: f64, seed: u64, #[serde(default = "big_demand")] demand: f64 },
+    Momentum { path: Vec<(u32, u32)>, n: u16, decay: f64, order_ratio: f64, seed: u64, #[serde(default = "big_demand")] demand: f64, #[serde(default = "one")] scale: f64 },
     /// multi-asset noise agents on asset 1 of a two-asset environment (tick of asset 1 given; mid off the grid when the spread is odd in ticks)
-    NoiseMarket { tick: u32, bid: u32, ask: u32, sigma: f64, n: u16, steps: u32, seed: u64 },
+    NoiseMarket { tick: u32, bid: u32, ask: u32, sigma: f64, n: u16, steps: u32, seed: u64, #[serde(default = "yes")] trading: bool },
     /// multi-asset momentum agent on asset 1 with harness-controlled quotes
-    MomentumMarket { path: Vec<(u32, u32)>, n: u16, seed: u64, #[serde(default = "one")] decay: f64 },
+    MomentumMarket { path: Vec<(u32, u32)>, n: u16, seed: u64, #[serde(default = "one")] decay: f64, #[serde(default = "one")] scale: f64 },
     /// rounding
     Round { p: f64, tick: u32 },
     /// momentum agents (single-asset, or multi-asset on asset 1): a price move makes every trader place a limit order (saturated, order ratio 1), then QUIET steps
@@ -44,6 +44,7 @@ pub enum AgentCase {
 
 fn big_demand() -> f64 { 1.0e6 }
 fn one() -> f64 { 1.0 }
+fn yes() -> bool { true }
 fn is_bid(s: Side) -> bool { matches!(s, Side::Bid) }
 
 fn fail(clause: &str, detail: String) -> Failure {
@@ -217,10 +218,10 @@ fn run_case_inner(c: &AgentCase) -> Vec<Failure> {
                 }
             }
         }
-        AgentCase::Momentum { path, n, decay, order_ratio, seed, demand } => {
+        AgentCase::Momentum { path, n, decay, order_ratio, seed, demand, scale } => {
             let mut env: Env = Env::new(0, 1, 1_000_000, true);
             let mut rng = Xoroshiro128StarStar::seed_from_u64(*seed);
-            let params = MomentumParams { tick_size: 1, p_cancel: 0.0, trade_vol: 10, decay: *decay, demand: *demand, scale: 1.0, order_ratio: *order_ratio, price_dist_mu: 0.0, price_dist_sigma: 0.5 };
+            let params = MomentumParams { tick_size: 1, p_cancel: 0.0, trade_vol: 10, decay: *decay, demand: *demand, scale: *scale, order_ratio: *order_ratio, price_dist_mu: 0.0, price_dist_sigma: 0.5 };
             let mut ag = MomentumAgent::new(100, *n, params);
             let mut last: Option<f64> = None;
             let mut m = 0.0f64;
@@ -250,7 +251,7 @@ fn run_case_inner(c: &AgentCase) -> Vec<Failure> {
                 last = Some(mid);
                 let markets: Vec<&Order> = new.iter().filter(|o| (is_bid(o.side) && o.price == u32::MAX) || (!is_bid(o.side) && o.price == 0)).collect();
                 let (buys, sells) = (markets.iter().filter(|o| is_bid(o.side)).count(), markets.iter().filter(|o| !is_bid(o.side)).count());
-                let saturated = m.abs() >= 4.0 && *demand >= 1.1 * f64::from(*n);   // |tanh(M)| > 0.999: p = demand * tanh / n >= 1
+                let saturated = (*scale * m).abs() >= 4.0 && *demand >= 1.1 * f64::from(*n);   // |tanh(M)| > 0.999: p = demand * tanh / n >= 1
                 if saturated && m > 0.0 && (buys != *n as usize || sells != 0) {
                     out.push(fail("C17.buys_when_rising", format!("step {}: M = {} > 0 but market orders (buys, sells) = ({}, {}) from {} traders", k, m, buys, sells, n)));
                 }
@@ -279,8 +280,9 @@ fn run_case_inner(c: &AgentCase) -> Vec<Failure> {
                 }
             }
         }
-        AgentCase::NoiseMarket { tick, bid, ask, sigma, n, steps, seed } => {
-            let mut env: MarketEnv<2, 3> = MarketEnv::new(0, [1, *tick], 1_000_000, true);
+        AgentCase::NoiseMarket { tick, bid, ask, sigma, n, steps, seed, trading } => {
+            // trading may be disabled: the book of asset 1 is then allowed to be crossed (bid above ask), which the agents must survive and quote around
+            let mut env: MarketEnv<2, 3> = MarketEnv::new(0, [1, *tick], 1_000_000, *trading);
             let mut rng = Xoroshiro128StarStar::seed_from_u64(*seed);
             let params = NoiseAgentParams { tick_size: *tick, p_limit: 1.0, p_market: 0.0, p_cancel: 0.2, trade_vol: 100, price_dist_mu: 0.0, price_dist_sigma: *sigma };
             let mut agents = NoiseMarketAgent::new(1, 10, *n, params);
@@ -316,10 +318,10 @@ fn run_case_inner(c: &AgentCase) -> Vec<Failure> {
                 }
             }
         }
-        AgentCase::MomentumMarket { path, n, seed, decay } => {
+        AgentCase::MomentumMarket { path, n, seed, decay, scale } => {
             let mut env: MarketEnv<2, 3> = MarketEnv::new(0, [1, 1], 1_000_000, true);
             let mut rng = Xoroshiro128StarStar::seed_from_u64(*seed);
-            let params = MomentumParams { tick_size: 1, p_cancel: 0.0, trade_vol: 10, decay: *decay, demand: 1.0e6, scale: 1.0, order_ratio: 0.0, price_dist_mu: 0.0, price_dist_sigma: 0.5 };
+            let params = MomentumParams { tick_size: 1, p_cancel: 0.0, trade_vol: 10, decay: *decay, demand: 1.0e6, scale: *scale, order_ratio: 0.0, price_dist_mu: 0.0, price_dist_sigma: 0.5 };
             let mut ag = MomentumMarketAgent::new(100, *n, 1, params);
             let mut last: Option<f64> = None;
             let mut mm = 0.0f64;
@@ -503,9 +505,13 @@ pub fn search_agents(prop: &str, seed: u64) -> Option<(AgentCase, Vec<Failure>)>
                 cases.push(AgentCase::Round { p, tick });
             }
         }
-        cases.push(AgentCase::NoiseMarket { tick: 2, bid: 100, ask: 102, sigma: 0.3, n: 5, steps: 40, seed });
-        cases.push(AgentCase::NoiseMarket { tick: 1, bid: 100, ask: 103, sigma: 0.3, n: 5, steps: 40, seed });
-        cases.push(AgentCase::NoiseMarket { tick: 5, bid: 100, ask: 115, sigma: 1.0, n: 5, steps: 40, seed });
+        cases.push(AgentCase::NoiseMarket { tick: 2, bid: 100, ask: 102, sigma: 0.3, n: 5, steps: 40, seed, trading: true });
+        cases.push(AgentCase::NoiseMarket { tick: 1, bid: 100, ask: 103, sigma: 0.3, n: 5, steps: 40, seed, trading: true });
+        cases.push(AgentCase::NoiseMarket { tick: 5, bid: 100, ask: 115, sigma: 1.0, n: 5, steps: 40, seed, trading: true });
+        // trading disabled and the book of the agents' asset crossed (bid above ask): the agents observe the mid-price of a crossed book and must neither abort nor quote on the wrong side of it
+        cases.push(AgentCase::NoiseMarket { tick: 1, bid: 110, ask: 100, sigma: 0.3, n: 4, steps: 10, seed, trading: false });
+        cases.push(AgentCase::NoiseMarket { tick: 2, bid: 120, ask: 100, sigma: 1.0, n: 3, steps: 10, seed, trading: false });
+        cases.push(AgentCase::NoiseMarket { tick: 1, bid: 100, ask: 104, sigma: 0.3, n: 4, steps: 10, seed, trading: false });
         cases.push(AgentCase::Random { tick: 2, lo: 10, hi: 40, n: 8, rate: 0.5, steps: 60, seed });
         cases.push(AgentCase::Random { tick: 1, lo: 5, hi: 6, n: 4, rate: 1.0, steps: 30, seed });
         cases.push(AgentCase::Random { tick: 1, lo: 5, hi: 7, n: 6, rate: 0.6, steps: 80, seed: seed + 1 });
@@ -513,28 +519,34 @@ pub fn search_agents(prop: &str, seed: u64) -> Option<(AgentCase, Vec<Failure>)>
     }
     if prop == "C17" || prop == "C16" || prop == "any" {
         for (decay, ratio) in [(1.0f64, 0.0f64), (1.0, 1.0), (0.5, 0.0)] {
-            cases.push(AgentCase::Momentum { path: vec![(100, 102), (90, 92), (80, 82), (95, 97), (95, 97), (110, 112), (100, 102)], n: 3, decay, order_ratio: ratio, seed, demand: 1.0e6 });
-            cases.push(AgentCase::Momentum { path: vec![(1000, 1002), (1010, 1012), (1020, 1022), (1000, 1002)], n: 2, decay, order_ratio: ratio, seed: seed + 1, demand: 1.0e6 });
+            cases.push(AgentCase::Momentum { path: vec![(100, 102), (90, 92), (80, 82), (95, 97), (95, 97), (110, 112), (100, 102)], n: 3, decay, order_ratio: ratio, seed, demand: 1.0e6, scale: 1.0 });
+            cases.push(AgentCase::Momentum { path: vec![(1000, 1002), (1010, 1012), (1020, 1022), (1000, 1002)], n: 2, decay, order_ratio: ratio, seed: seed + 1, demand: 1.0e6, scale: 1.0 });
         }
         // decay < 1: the carried-over signal (M returns to exactly zero, then a flat step)
-        cases.push(AgentCase::Momentum { path: vec![(1000, 1002), (1010, 1012), (1005, 1007), (1005, 1007), (1005, 1007)], n: 2, decay: 0.5, order_ratio: 0.0, seed, demand: 1.0e6 });
-        cases.push(AgentCase::Momentum { path: vec![(1000, 1002), (980, 982), (990, 992), (990, 992)], n: 2, decay: 0.5, order_ratio: 0.0, seed, demand: 1.0e6 });
-        cases.push(AgentCase::Momentum { path: vec![(1000, 1002), (1032, 1034), (1032, 1034), (1032, 1034)], n: 2, decay: 0.5, order_ratio: 0.0, seed, demand: 1.0e6 });
-        cases.push(AgentCase::MomentumMarket { path: vec![(995, 1005), (996, 1005), (996, 1006), (995, 1006), (990, 1000), (1000, 1010)], n: 2, seed, decay: 1.0 });
-        cases.push(AgentCase::MomentumMarket { path: vec![(100, 102), (90, 92), (110, 112), (110, 112)], n: 3, seed, decay: 1.0 });
-        cases.push(AgentCase::MomentumMarket { path: vec![(1000, 1002), (1032, 1034), (1028, 1030), (1028, 1030), (1000, 1002)], n: 2, seed, decay: 0.5 });
+        cases.push(AgentCase::Momentum { path: vec![(1000, 1002), (1010, 1012), (1005, 1007), (1005, 1007), (1005, 1007)], n: 2, decay: 0.5, order_ratio: 0.0, seed, demand: 1.0e6, scale: 1.0 });
+        cases.push(AgentCase::Momentum { path: vec![(1000, 1002), (980, 982), (990, 992), (990, 992)], n: 2, decay: 0.5, order_ratio: 0.0, seed, demand: 1.0e6, scale: 1.0 });
+        cases.push(AgentCase::Momentum { path: vec![(1000, 1002), (1032, 1034), (1032, 1034), (1032, 1034)], n: 2, decay: 0.5, order_ratio: 0.0, seed, demand: 1.0e6, scale: 1.0 });
+        cases.push(AgentCase::MomentumMarket { path: vec![(995, 1005), (996, 1005), (996, 1006), (995, 1006), (990, 1000), (1000, 1010)], n: 2, seed, decay: 1.0, scale: 1.0 });
+        cases.push(AgentCase::MomentumMarket { path: vec![(100, 102), (90, 92), (110, 112), (110, 112)], n: 3, seed, decay: 1.0, scale: 1.0 });
+        cases.push(AgentCase::MomentumMarket { path: vec![(1000, 1002), (1032, 1034), (1028, 1030), (1028, 1030), (1000, 1002)], n: 2, seed, decay: 0.5, scale: 1.0 });
         // carried-over signal with limit orders (order ratio 1): the sign of M and the side of the latest move differ at step 3
-        cases.push(AgentCase::Momentum { path: vec![(1000, 1002), (1032, 1034), (1028, 1030), (1028, 1030), (1000, 1002)], n: 2, decay: 0.5, order_ratio: 1.0, seed, demand: 1.0e6 });
-        cases.push(AgentCase::Momentum { path: vec![(1000, 1002), (968, 970), (972, 974), (972, 974), (1000, 1002)], n: 2, decay: 0.5, order_ratio: 1.0, seed, demand: 1.0e6 });
-        cases.push(AgentCase::Momentum { path: vec![(1000, 1002), (968, 970), (972, 974), (990, 992)], n: 3, decay: 0.5, order_ratio: 2.0, seed: seed + 2, demand: 1.0e6 });
+        cases.push(AgentCase::Momentum { path: vec![(1000, 1002), (1032, 1034), (1028, 1030), (1028, 1030), (1000, 1002)], n: 2, decay: 0.5, order_ratio: 1.0, seed, demand: 1.0e6, scale: 1.0 });
+        cases.push(AgentCase::Momentum { path: vec![(1000, 1002), (968, 970), (972, 974), (972, 974), (1000, 1002)], n: 2, decay: 0.5, order_ratio: 1.0, seed, demand: 1.0e6, scale: 1.0 });
+        cases.push(AgentCase::Momentum { path: vec![(1000, 1002), (968, 970), (972, 974), (990, 992)], n: 3, decay: 0.5, order_ratio: 2.0, seed: seed + 2, demand: 1.0e6, scale: 1.0 });
         // an order ratio below 1 with demand far above the number of traders: the limit-order propensity order_ratio * |demand * tanh| / n is still >= 1, in both directions
-        cases.push(AgentCase::Momentum { path: vec![(1000, 1002), (1032, 1034), (1000, 1002), (1040, 1042), (990, 992)], n: 4, decay: 1.0, order_ratio: 0.25, seed, demand: 1.0e6 });
-        cases.push(AgentCase::Momentum { path: vec![(1000, 1002), (968, 970), (1000, 1002), (960, 962), (1010, 1012)], n: 3, decay: 1.0, order_ratio: 0.5, seed: seed + 3, demand: 64.0 });
+        cases.push(AgentCase::Momentum { path: vec![(1000, 1002), (1032, 1034), (1000, 1002), (1040, 1042), (990, 992)], n: 4, decay: 1.0, order_ratio: 0.25, seed, demand: 1.0e6, scale: 1.0 });
+        cases.push(AgentCase::Momentum { path: vec![(1000, 1002), (968, 970), (1000, 1002), (960, 962), (1010, 1012)], n: 3, decay: 1.0, order_ratio: 0.5, seed: seed + 3, demand: 64.0, scale: 1.0 });
         for (n, market, tick) in [(3u16, false, 1u32), (5, true, 2), (2, false, 5), (4, true, 1)] {
             cases.push(AgentCase::MomentumQuiet { n, seed, market, tick });
         }
+        // very strong signals (a jump of hundreds of ticks; a large scale): tanh saturates, the documented propensity stays |demand * tanh(scale * M) / n| - in both directions, both variants
+        cases.push(AgentCase::Momentum { path: vec![(10000, 10002), (10800, 10802), (10000, 10002), (10900, 10902)], n: 3, decay: 1.0, order_ratio: 1.0, seed, demand: 1.0e6, scale: 1.0 });
+        cases.push(AgentCase::Momentum { path: vec![(10000, 10002), (10008, 10010), (10000, 10002), (10010, 10012)], n: 2, decay: 1.0, order_ratio: 0.0, seed, demand: 1.0e6, scale: 50.0 });
+        cases.push(AgentCase::MomentumMarket { path: vec![(10000, 10002), (10800, 10802), (10000, 10002), (10900, 10902)], n: 3, seed, decay: 1.0, scale: 1.0 });
+        cases.push(AgentCase::MomentumMarket { path: vec![(10000, 10002), (10008, 10010), (10000, 10002), (10010, 10012)], n: 4, seed, decay: 1.0, scale: 50.0 });
+        cases.push(AgentCase::MomentumMarket { path: vec![(20000, 20002), (50000, 50002), (20000, 20002)], n: 2, seed, decay: 0.5, scale: 1.0 });
         // barely saturated demand: the probability is |demand * tanh(scale * M)| / n with n the NUMBER of traders
-        cases.push(AgentCase::Momentum { path: vec![(1000, 1002), (1020, 1022), (1000, 1002), (1030, 1032)], n: 3, decay: 1.0, order_ratio: 0.0, seed, demand: 3.6 });
+        cases.push(AgentCase::Momentum { path: vec![(1000, 1002), (1020, 1022), (1000, 1002), (1030, 1032)], n: 3, decay: 1.0, order_ratio: 0.0, seed, demand: 3.6, scale: 1.0 });
     }
     // seeded random parameterisations on top of the fixed family (tick sizes 1..10, probabilities in {0, (0,1), >= 1}, agent counts, paths)
     {
@@ -553,18 +565,18 @@ pub fn search_agents(prop: &str, seed: u64) -> Option<(AgentCase, Vec<Failure>)>
             for k in 0..10u64 {
                 let tick = [1u32, 2, 5][g.gen_range(0..3)];
                 let bid = (80 + g.gen_range(0..40)) * tick;
-                cases.push(AgentCase::NoiseMarket { tick, bid, ask: bid + g.gen_range(1..5) * tick, sigma: [0.3, 1.0][g.gen_range(0..2)], n: g.gen_range(1..6), steps: 30, seed: seed + 300 + k });
+                cases.push(AgentCase::NoiseMarket { tick, bid, ask: bid + g.gen_range(1..5) * tick, sigma: [0.3, 1.0][g.gen_range(0..2)], n: g.gen_range(1..6), steps: 30, seed: seed + 300 + k, trading: true });
             }
         }
         for k in 0..16u64 {
             let mut b = 1000u32;
             let path: Vec<(u32, u32)> = (0..g.gen_range(5..10)).map(|_| { b = (b as i64 + [-40i64, -12, -6, 0, 0, 6, 12, 40][g.gen_range(0..8)]).max(500) as u32; (b, b + 2) }).collect();
-            cases.push(AgentCase::Momentum { path, n: g.gen_range(1..6), decay: [1.0, 0.5, 0.25][g.gen_range(0..3)], order_ratio: [0.0, 0.25, 1.0, 2.0][g.gen_range(0..4)], seed: seed + 400 + k, demand: [1.0e6, 64.0][g.gen_range(0..2)] });
+            cases.push(AgentCase::Momentum { path, n: g.gen_range(1..6), decay: [1.0, 0.5, 0.25][g.gen_range(0..3)], order_ratio: [0.0, 0.25, 1.0, 2.0][g.gen_range(0..4)], seed: seed + 400 + k, demand: [1.0e6, 64.0][g.gen_range(0..2)], scale: 1.0 });
         }
         for k in 0..6u64 {
             let mut b = 1000u32;
             let path: Vec<(u32, u32)> = (0..g.gen_range(4..8)).map(|_| { b = (b as i64 + [-40i64, -10, 0, 10, 40][g.gen_range(0..5)]).max(500) as u32; (b, b + 2) }).collect();
-            cases.push(AgentCase::MomentumMarket { path, n: g.gen_range(1..5), seed: seed + 500 + k, decay: [1.0, 0.5][g.gen_range(0..2)] });
+            cases.push(AgentCase::MomentumMarket { path, n: g.gen_range(1..5), seed: seed + 500 + k, decay: [1.0, 0.5][g.gen_range(0..2)], scale: 1.0 });
         }
     }
     for c in cases {
